@@ -678,6 +678,60 @@ async def c04_notify_var_get(w):
             "expected": "each of the four names bound to None, the event's own value kept"}
 
 
+async def c09_state_stale_last(w):
+    """A watcher that names an entity only through an attribute is notified once and then leaves as the last watcher; the entity
+    changes outside pyscript; a guard expression of another function then reads the entity through State.notify_var_get:
+    it must see the current value, not the one remembered for the watcher that left."""
+    from types import SimpleNamespace as NS
+    from custom_components.pyscript.state import State, StateVal
+    hass = await boot()
+    State.notify.clear()
+    State.notify_var_last.clear()
+    cur = {"v": "1"}
+    hass.states.get = lambda name: NS(state=cur["v"], attributes={"level": 2}, entity_id=name, last_updated="u", last_changed="c", last_reported="r") \
+        if name == "pyscript.mode" else None
+    q = asyncio.Queue(0)
+    await State.notify_add({"pyscript.mode.level"}, q)
+    val = StateVal(hass.states.get("pyscript.mode"))
+    await State.update({"pyscript.mode": val}, {"trigger_type": "state", "var_name": "pyscript.mode", "value": val, "old_value": None})
+    State.notify_del({"pyscript.mode.level"}, q)
+    cur["v"] = "2"                                     # changed by another integration; nobody in pyscript watches it now
+    val2 = StateVal(hass.states.get("pyscript.mode"))
+    await State.update({"pyscript.mode": val2}, {"trigger_type": "state", "var_name": "pyscript.mode", "value": val2, "old_value": val})
+    seen = State.notify_var_get({"pyscript.mode"}, {})
+    got = seen.get("pyscript.mode", "<unbound: the expression reads the live state>")
+    await shutdown()
+    stale = isinstance(got, StateVal) and str(got) != "2"
+    return {"reproduced": stale, "observed": {"value a guard expression would see": repr(got), "current": "2",
+                                               "notify": sorted(State.notify), "remembered": sorted(State.notify_var_last)},
+            "expected": "the current value '2' (remembered and refreshed, or not remembered at all)"}
+
+
+async def c11_trigger_expression_context(w):
+    """Legacy TrigInfo built on the real classes: trigger declared in context A, action function living in context B (a wrapper
+    from a decorator imported from a module).  Every trigger expression must be evaluated with A's globals."""
+    from types import SimpleNamespace as NS
+    from custom_components.pyscript.trigger import TrigInfo
+    from custom_components.pyscript.global_ctx import GlobalContext, GlobalContextMgr
+    await boot_full(legacy=True)
+    a = GlobalContext("file.decl", global_sym_table={"__name__": "file.decl", "limit": 5}, manager=GlobalContextMgr)
+    b = GlobalContext("modules.helpers", global_sym_table={"__name__": "modules.helpers", "limit": 0}, manager=GlobalContextMgr)
+    action = NS(global_ctx=b, global_ctx_name="modules.helpers", name="wrapper")
+    cfg = {"action": action, "global_sym_table": a.global_sym_table,
+           "state_trigger": {"args": ["limit > 3 and pyscript.c11v == '1'"], "kwargs": {}}, "state_active": {"args": "limit > 3"},
+           "event_trigger": {"args": ["c11_ev", "limit > 3"], "kwargs": {}}}
+    ti = TrigInfo("file.decl.f", cfg, a)
+    out = {}
+    for nm in ("state_trig_eval", "active_expr", "event_trig_expr"):
+        ev = getattr(ti, nm)
+        out[nm] = None if ev is None else ev.get_global_ctx_name()
+    val = await ti.event_trig_expr.eval({})
+    await shutdown()
+    ok = all(v == "file.decl" for v in out.values()) and bool(val)
+    return {"reproduced": not ok, "observed": {"evaluator contexts": out, "event filter `limit > 3` evaluates to": repr(val)},
+            "expected": "all evaluators in file.decl; the filter sees file.decl's limit = 5, so it is true"}
+
+
 async def c12_outgoing(w):
     """service.call / domain.service() with control-keyword look-alikes; data delivered must equal the given kwargs
     minus control keywords of the recognised type."""
